@@ -211,7 +211,7 @@ class Options:
     max_depth: int = 4
     max_iter: int = 1  # iterations explored for loops over symbolic iterables
     max_while: int = 2
-    max_concrete_iter: int = 8
+    max_concrete_iter: int = 24
     max_steps: int = 20000
     inline: Any = None  # set of quals | callable(FuncInfo)->bool | None (only closures / lambdas)
     raising: Any = None  # callable(effect-data dict)->bool : may this call raise?  (forks)
